@@ -1,6 +1,7 @@
 package checks
 
 import (
+	c12tok "github.com/pip-services3-gox/pip-services3-expressions-gox/calculator/tokenizers"
 	mparsers "github.com/pip-services3-gox/pip-services3-expressions-gox/mustache/parsers"
 	"fmt"
 	"regexp"
@@ -176,7 +177,6 @@ func c12Run(c *fw.Ctx, kind, text string, optSets []int) {
 					found, valueOK := false, false
 					// a rejected section end: the offending token is that end tag (the quoted name is the open section's)
 					endTag := make([]bool, len(base.toks))
-					sectionEnd := strings.Contains(ae.Message, "section end for variable '")
 					for i := 0; i < len(base.toks); i++ {
 						if base.toks[i].typ == tokenizers.Symbol && strings.HasPrefix(base.toks[i].val, "{{") {
 							j := i + 1
@@ -196,8 +196,8 @@ func c12Run(c *fw.Ctx, kind, text string, optSets []int) {
 					for i := range base.toks {
 						if ref[i][0] == l && ref[i][1] == col {
 							found = true
-							if sectionEnd {
-								valueOK = valueOK || endTag[i]
+							if endTag[i] {
+								valueOK = true // (whatever the wording: a name quoted there may be the open section's)
 								continue
 							}
 							if quoted == "" || base.toks[i].val == quoted || strings.EqualFold(strings.TrimSpace(base.toks[i].val), quoted) {
@@ -364,6 +364,32 @@ func init() {
 					Run:  func(c *fw.Ctx, i int64) { c12Run(c, kind, stringByIndex(al, i), sets) },
 					Repr: func(i int64) string { return fmt.Sprintf("%s tokenizer, input %q, %d option sets", kind, stringByIndex(al, i), len(sets)) }})
 			}
+			for _, kind := range tokKindsCustom {
+				kind := kind
+				cl := 4
+				if tier == "thorough" {
+					cl = 5
+				}
+				sp = append(sp, fw.Space{Name: kind, N: countStrings(len(customAlphabet), cl),
+					Run:  func(c *fw.Ctx, i int64) { c12Run(c, kind, stringByIndex(customAlphabet, i), sets) },
+					Repr: func(i int64) string { return fmt.Sprintf("%s tokenizer, input %q, %d option sets", kind, stringByIndex(customAlphabet, i), len(sets)) }})
+			}
+			// the exported keyword list extended by the user with words that hold two-byte letters
+			kwAlpha := []rune("oO\u00f9\u00d9 \n1(")
+			kwLen := 4
+			if tier == "thorough" {
+				kwLen = 5
+			}
+			sp = append(sp, fw.Space{Name: "extended-keyword-list", N: countStrings(len(kwAlpha), kwLen),
+				Run: func(c *fw.Ctx, i int64) {
+					saved := c12tok.Keywords
+					c12tok.Keywords = append(append([]string{}, saved...), "O\u00d9", "\u00d9O\u00d9")
+					defer func() { c12tok.Keywords = saved }()
+					c12Run(c, "expression+custom", stringByIndex(kwAlpha, i), sets)
+				},
+				Repr: func(i int64) string {
+					return fmt.Sprintf("expression tokenizer with O\u00d9 and \u00d9O\u00d9 appended to the exported keyword list, input %q, %d option sets", stringByIndex(kwAlpha, i), len(sets))
+				}})
 			ctxN := 1
 			counts := pumpCountsSmall
 			if tier == "thorough" {
